@@ -81,6 +81,13 @@ def uv_lookup_rules(cx):
               'the UV lookup treats the 2D triangles as SOLID: with solid = false parry2d moves a point strictly inside a triangle onto the nearest triangle edge, '
               'so an interior UV coordinate would come back as a point on an edge; and the interior location (which carries no barycentric coordinates in 2D) is given weights instead of being unwrapped',
               where=b.file, found=cx.arg(pj[0], 2) if pj else None)
+        # None is returned only when the interior weights cannot be computed: the lookup never rejects a query by where its projection landed
+        nones = [(s_, d_) for s_, d_ in cx.rets(b) if not (d_[0] == 'agg' and d_[1].endswith('Option::Some'))]
+        okn = all(d_[0] == 'residual' and find('(call *interior_barycentric _ _ _ _)', d_) is not None for s_, d_ in nones) and \
+            all(not any(find('(field is_inside _)', a_) is not None for a_, p_ in cx.guards(b, s_.bb)) for s_, d_ in cx.rets(b))
+        cx.ob('GUARD', 'UvMapping::triangle:none-only-degenerate', okn,
+              'UvMapping::triangle gives None only by propagating interior_barycentric (a degenerate UV triangle); a query on or beyond the outline of the map is answered with the closest triangle '
+              '(points ON the boundary of the disk round-trip 3D -> UV -> 3D)', where=b.file, found='; '.join(show(d_)[:100] for _, d_ in nones))
     b = cx.fn('geom3::mesh::uv_mapping::interior_barycentric')
     if b:
         somes = [d for s_, d in cx.rets(b) if d[0] == 'agg' and d[1].endswith('Option::Some')]
@@ -210,6 +217,23 @@ def run(cx):
                         o1, o2 = [k for k in range(3) if k != j]
                         ref = ('div', ('sub', ('add', sq(L[o1]), sq(L[o2])), sq(L[j])), ('mul', ('mul', ('const', 2.0), L[o1]), L[o2]))
                         ok = ok and rat_equal(e[f'a{j}'], ref)
+        # the generic (law of cosines) alternative is reached exactly when no side is STRICTLY longer than the other two together: a tolerance
+        # on that test turns a valid flat triangle into a (pi, 0, 0) face whose cotangents are infinite
+        okg = False
+        if len(pushes) == 1:
+            al = cx.arg_alts(pushes[0], 1)
+            gen = [(dv, g) for _, dv, g in al if find('(call f64::acos _)', dv) is not None]
+            if len(gen) == 1:
+                LPk = lambda k: f'(index (field edge_lengths (param mesh)) (index (itervar (field face_edges (param mesh))) {k}))'
+                tests = [g_ for g_ in gen[0][1] if g_[0][0] in ('lt', 'le', 'gt', 'ge')]
+                want = 0
+                for j in range(3):
+                    o1, o2 = [k for k in range(3) if k != j]
+                    want += sum(1 for a_, p_ in tests if not p_ and match(f'(lt (add {LPk(o1)} {LPk(o2)}) {LPk(j)})', a_) is not None)
+                okg = want == 3 and len(tests) == 3
+        cx.ob('GUARD', 'calc_face_angles:degenerate-test', okg,
+              'a face is treated as degenerate exactly when one side is strictly longer than the sum of the other two (l_j > l_a + l_b, no tolerance): every valid triangle, however flat, goes through the law of cosines',
+              where=b.file)
         cx.ob('EXPR', 'calc_face_angles:law-of-cosines', ok,
               'angle j = acos((l_a^2 + l_b^2 - l_j^2) / (2 l_a l_b)) with l_j the length of face_edges[j] (the edge opposite vertex j) and a, b the other two', where=b.file)
     b = cx.fn(f'{CF}::calc_angle_defects')
